@@ -22,6 +22,7 @@ EXPLANATION = (
     "that gzip/bz2/lz4/zstd readers (and any buffering layer around them) fail rather than lose or invent data on truncated "
     "input; every-cut-position enumeration."
     " Also decided (rules added after the fifth blind round): (R4.6, package-wide) an io.Buffered*/TextIOWrapper layer is put only around an object that lacks peek() or is opened right there as a plain file - never around an object that can be a gzip/bz2/lz4 reader."
+    " Rules added after the sixth blind round: (R4.9 = R3.3 of C03, writer handler) the descriptor handler writes its frame at once - no queue that survives a failed write."
 )
 RULE_SUMMARY = "instances: yields, handlers, raise sites, read/write call sites of the frame loop; non-trivial = path/dominance/def-use computed"
 
